@@ -2,8 +2,9 @@
 (DESIGN.md sections 5.3 and 6 "C06", section 9 lead 4; patterns P1 + P2).
 
   1. TLC checks the design (spec/Lifecycle.tla, code-shaped Step of ServerSession.handle + the property's phase
-     tracker and clauses) on the whole (phase x message) table — the joint state graph over the full alphabet,
-     every row evaluated as a state predicate — and on every step of every sequence of core letters up to a
+     tracker and clauses; a message = method x per-request-meta class x initialize-params class x spelling of the
+     _meta member names on the wire: plain / escaped solidus / \\uXXXX) on the whole (phase x message) table —
+     the joint state graph over the full alphabet, every row evaluated as a state predicate — and on every step of every sequence of core letters up to a
      bound.  The one documented departure of the code-shaped model from the property (lead 4: setLevel /
      subscribe / unsubscribe / roots-list-changed are ungated) is exported as a LEAD, not a verdict.
   2. TLC generates what is replayed: the dumped table graph (every cell behind a shortest prefix + transition
@@ -22,7 +23,8 @@ PID = "C06"
 TLC_WORKERS = 4
 CLAUSES = ["GateBeforeInit", "DuplicateInitRejected", "PrematureInitializedRejected", "RepeatedInitializedRejected", "FirstInitializedTakesEffect",
            "PingAlways", "ModernServedIffMetaComplete", "RemovedMethodsNotFound"]
-PROBES = [{"m": "tools/list", "mt": "none", "ip": "na"}, {"m": "notifications/initialized", "mt": "none", "ip": "na"}]
+PROBES = [{"m": "tools/list", "mt": "none", "ip": "na", "sp": "plain"},
+          {"m": "notifications/initialized", "mt": "none", "ip": "na", "sp": "plain"}]
 HARNESS = ["mcp/c06_lifecycle_test.go"]
 
 
@@ -32,6 +34,8 @@ def msg_name(l):
         s += "(%s)" % l["ip"]
     if l["mt"] != "none":
         s += "+meta=" + l["mt"]
+        if l.get("sp", "plain") != "plain":   # spelling of the _meta keys on the wire
+            s += "~" + l["sp"]
     return s
 
 
@@ -56,7 +60,7 @@ def sig_of(f, e):
 
 
 def letter_of(args):
-    return {"m": args[0], "mt": args[1], "ip": args[2]}
+    return {"m": args[0], "mt": args[1], "ip": args[2], "sp": args[3]}
 
 
 def table_sequences(dot, seed):
@@ -111,6 +115,9 @@ def run(tier, seed, replay):
         "(nil-ness, version, which message supplied it) and through the behaviour of the following messages",
         "a session that has served a 2026-07-28 request without any initialize is not a legacy-protocol session: "
         "legacy traffic it then serves is counted (outside_legacy_scope) but not judged",
+        "the spelling of the _meta member names (literal, solidus written \\/, characters written \\uXXXX) is part of "
+        "the message alphabet: all spellings are the same JSON value, so the property's clauses do not look at it and "
+        "every spelling must be answered like the literal one; member VALUES are always written literally",
         "subscriptions/listen (parks until cancelled) and batches are not in the alphabet; over HTTP no _meta naming "
         "a legacy version is sent (the stateful transport refuses any _meta protocolVersion before the session sees it)",
         "TLC exhaustive results: the full (joint state x letter) table; all core-letter sequences up to the stated length",
@@ -124,7 +131,7 @@ def run(tier, seed, replay):
     counts = {}
     if replay:
         rep = json.load(open(replay))["replay"]
-        seqs = [{"id": rep.get("id", "replay"), "tr": rep["tr"], "seq": rep["seq"]}]
+        seqs = [{"id": rep.get("id", "replay"), "tr": rep["tr"], "seq": [dict(l, sp=l.get("sp", "plain")) for l in rep["seq"]]}]
         hseed = rep.get("seed", seed)
     else:
         hseed = seed
@@ -355,6 +362,6 @@ def run(tier, seed, replay):
         lead_cells = {(p["phase"], p["lead"]["m"], p["lead"]["mt"]) for p in model_leads}
         v.cov["model_leads"] = len(lead_cells)
         v.cov["model_leads_reproduced_on_real_code"] = len(lead_cells & failed_cells)
-        v.cov["model_lead_cells"] = sorted("%s:%s" % (p, msg_name({"m": m, "mt": mt, "ip": "na"})) for (p, m, mt) in lead_cells)
+        v.cov["model_lead_cells"] = sorted("%s:%s" % (p, msg_name({"m": m, "mt": mt, "ip": "na", "sp": "plain"})) for (p, m, mt) in lead_cells)
         v.cov["violating_cells_outside_model_leads"] = sorted("%s:%s+%s" % c for c in (failed_cells - lead_cells))
     return v.finish()
